@@ -89,6 +89,33 @@ def batch_strides(text: str) -> dict:
     return {m.group(1): m.group(2).strip() for m in re.finditer(r"\bint\s+(\w+start)\s*=\s*cur\s*\*\s*([^;]+);", strip_comments(text))}
 
 
+def batch_context(text: str) -> dict:
+    """the batched GPU kernels (`__global__ void XKernel(..., NaunetData *d_udata, int nsystem)`): does every system work on ITS OWN slice?
+    own_params: the kernel takes `&d_udata[cur]` and hands exactly that pointer to every Eval*Rates call (and reads its parameters
+    through it); own_state: the abundance pointer handed to those calls is `y + <offset of cur>`.  -> {kernel name: {...}}"""
+    t = strip_comments(text)
+    out = {}
+    for m in re.finditer(r"__global__\s+void\s+(\w+)\s*\(", t):
+        i = t.index("{", m.end())
+        depth, j = 0, i
+        while j < len(t):
+            depth += {"{": 1, "}": -1}.get(t[j], 0)
+            if depth == 0:
+                break
+            j += 1
+        body = t[i:j]
+        own = re.search(r"NaunetData\s*\*\s*(\w+)\s*=\s*&\s*d_udata\s*\[\s*cur\s*\]\s*;", body)
+        ycur = re.search(r"realtype\s*\*\s*(\w+)\s*=\s*y\s*\+\s*(\w+)\s*;", body)
+        calls = re.findall(r"\bEval\w*Rates\s*\(\s*(\w+)\s*,\s*([^,]+?)\s*,\s*([^)]+?)\s*\)", body)
+        reads = re.findall(r"=\s*(\w+)\s*->\s*\w+\s*;", body)
+        out[m.group(1)] = {
+            "calls": len(calls),
+            "own_params": bool(own) and all(c[2] == own.group(1) for c in calls) and all(r_ == own.group(1) for r_ in reads),
+            "own_state": bool(ycur) and all(c[1] == ycur.group(1) for c in calls),
+        }
+    return out
+
+
 class SumParser:
     """sum := [+|-] product ((+|-) product)* ; product := factor (* factor)*"""
 
